@@ -368,9 +368,23 @@ def translate_tables():
     h1es, _ = R.fn_body(h1, "end_stream")
     lines.append("Definition gen_park_requires_terminated : bool := %s." % (
         "true" if re.search(r"if\s+stream_context\.keep_alive_backend\s*&&\s*stream\.back\.is_terminated\(\)\s*&&\s*!interim\s*\{\s*\*status\s*=\s*BackendStatus::KeepAlive\s*;\s*\}\s*else\s*\{\s*self\.force_disconnect\(\)", h1es) else "false"))
+    # a lost backend is not closed over bytes still unparsed behind an interim (b0e7d42): the dead-backend
+    # check of Mux::ready, the predicate it consults, and the read path that parses the leftover on Closed
+    mx = R.strip(open(os.path.join(MUX, "mod.rs")).read())
+    cn = R.strip(open(os.path.join(MUX, "connection.rs")).read())
+    rb, _ = R.fn_body(h1, "readable")
+    try:
+        ub, _ = R.fn_body(cn, "has_unparsed_behind_interim")
+    except Exception:
+        ub = ""
+    waits = (re.search(r"if\s+dead\s*&&\s*!client\.readiness\(\)\.filter_interest\(\)\.is_readable\(\)\s*&&\s*!client\.has_buffer_pressure\(&self\.context\)\s*&&\s*!client\.has_unparsed_behind_interim\(&self\.context\)\s*\{", mx)
+             and re.search(r"let\s+kawa\s*=\s*&context\.streams\[stream_id\]\.back\s*;\s*let\s+interim\s*=\s*matches!\(\s*kawa\.detached\.status_line\s*,\s*kawa::StatusLine::Response\s*\{\s*code\s*,\s*\.\.\s*\}\s*if\s*\(100\.\.200\)\.contains\(&code\)\s*&&\s*code\s*!=\s*101\s*\)\s*;\s*interim\s*&&\s*kawa\.is_terminated\(\)\s*&&\s*!kawa\.storage\.unparsed_data\(\)\.is_empty\(\)", ub)
+             and re.search(r"let\s+leftover_after_interim\s*=\s*size\s*==\s*0\s*&&\s*matches!\(status,\s*SocketResult::WouldBlock\s*\|\s*SocketResult::Closed\)\s*&&\s*self\.position\.is_client\(\)\s*&&\s*kawa\.is_initial\(\)\s*&&\s*!kawa\.storage\.unparsed_data\(\)\.is_empty\(\)\s*;", rb)
+             and re.search(r"if\s+update_readiness_after_read\(size,\s*status,\s*&mut\s+self\.readiness\)\s*&&\s*!leftover_after_interim\s*\{", rb))
+    lines.append("Definition gen_close_waits_behind_interim : bool := %s." % ("true" if waits else "false"))
     lines.append("Definition gen_tables : tables :=\n  mkT gen_esd gen_connect gen_redirect_fallback gen_front_timeout gen_back_timeout\n"
                  "      (fun h2 => if h2 then gen_end_arm_h2 else gen_end_arm_h1) gen_default_answer_effs gen_force_effs gen_known_codes\n"
-                 "      gen_conn_retries gen_retry_guard_ge gen_rearm_after_write gen_rearm_delay_close gen_rearm_wait gen_rearm_backend_wait\n      gen_h1_close_after_close gen_h1_close_if_request_open gen_h1_head_gate\n      gen_park_requires_terminated.")
+                 "      gen_conn_retries gen_retry_guard_ge gen_rearm_after_write gen_rearm_delay_close gen_rearm_wait gen_rearm_backend_wait\n      gen_h1_close_after_close gen_h1_close_if_request_open gen_h1_head_gate\n      gen_park_requires_terminated gen_close_waits_behind_interim.")
     return "\n".join(lines) + "\n", fails
 
 
@@ -400,7 +414,7 @@ ASSUMPTIONS = [
     "the session feeds the per-request automaton the inputs the model assumes (mio readiness, timer wheel, kernel close/reset semantics): exercised by the black-box fault enumeration only",
     "HttpAnswers templates are the listener defaults (custom templates may resolve another status; the model uses the resolved status)",
 ]
-TRUSTED = ["translator props/c02.py:translate + tools/rustmini.py regenerate coq/C02/Gen.v (end_stream_decision tree, connect-error table, both timeout trees, h1/h2 end_stream arms, answer helper effects, retry budget) from lib/src/protocol/mux/{shared,mod,h1,h2,answers,router}.rs and lib/src/server.rs",
+TRUSTED = ["translator props/c02.py:translate + tools/rustmini.py regenerate coq/C02/Gen.v (end_stream_decision tree, connect-error table, both timeout trees, h1/h2 end_stream arms, answer helper effects, retry budget, the h1.rs keep-alive / head-gate / park rules, the dead-backend check that waits for bytes unparsed behind an interim) from lib/src/protocol/mux/{shared,mod,h1,h2,answers,router,connection}.rs and lib/src/server.rs",
            "black-box tier: sozu-e2e Worker + scripted raw-socket peers in harness/src/bin/c02bb.rs"]
 CODES = [301, 302, 308, 400, 401, 404, 408, 421, 429, 502, 503, 504]
 ODD_CODES = [0, 100, 200, 204, 304, 413, 418, 500, 501, 505, 507, 599, 65535]
@@ -592,7 +606,7 @@ def bb_scenarios(tier, rng):
           ("cl_close_at", 30), ("cl_close_at", 66), ("cl_close_at", len(HEAD_CLC + BODY)), ("cl_close_twice", 0),
           ("early_response", 0), ("continue100", 0), ("expect100", 0), ("hints103", 0), ("processing102", 0),
           ("continue_then_close", 0), ("continue_then_close", 1), ("continue_then_close", 2),
-          ("upgrade_then_close", 0), ("two_finals", 0),
+          ("upgrade_then_close", 0), ("two_finals", 0), ("burst103", 0), ("burst103", 1), ("burst100", 0),
           ("reuse_stall", 0), ("reuse_stall_after", 65), ("reuse_close_at", 0), ("reuse_close_at", 30), ("reuse_close_at", 65),
           ("reuse_reset_at", 0), ("sticky_refusing", 0), ("abort_then_next", 0)]
     if tier != "quick":
@@ -654,7 +668,7 @@ def extra_stage(tier, rng, work):
             flat += sch
             continue
         if kind in ("keepalive_close", "cl_close_twice", "early_response", "continue100", "expect100", "hints103", "processing102",
-                    "continue_then_close", "upgrade_then_close", "two_finals", "sticky_refusing", "abort_then_next"):
+                    "continue_then_close", "upgrade_then_close", "two_finals", "sticky_refusing", "abort_then_next", "burst103", "burst100"):
             index.append(None)
             continue
         sch, blen = predict_inputs(kind, k)
@@ -740,8 +754,10 @@ def extra_stage(tier, rng, work):
                     bad.append((i, "bb-cross-request", "two_finals: observed %s: the second request must get its own response (body 'B...'), not the surplus response of the first"
                                 % [(r["status"], r["body"], r.get("b0")) for r in rs]))
                 continue
-            if kind in ("continue100", "expect100", "hints103", "processing102"):
-                want1 = {"hints103": 103, "processing102": 102}.get(kind, 100)
+            if kind in ("continue100", "expect100", "hints103", "processing102", "burst103", "burst100"):
+                # burst*: the interim response, the complete final response and the FIN in ONE segment (automaton:
+                # IBackBurst, theorem interim_final_and_close_in_one_segment)
+                want1 = {"hints103": 103, "burst103": 103, "processing102": 102}.get(kind, 100)
                 ok = len(rs) == 2 and rs[0]["status"] == want1 and rs[0]["complete"] and classify_obs(rs[1]) == "relay" and rs[1]["body"] == 20
                 if not ok:
                     bad.append((i, "bb-interim", "%s: observed %s (expected interim %d, then the relayed 200 with 20 bytes)"
